@@ -153,7 +153,41 @@ EAB_VALUES = [False, True]
 # ("d",) default, ("i", n) int, ("s", str), ("N",) None, ("b", bool), ("f", 2.5) float, ("l",) a list object
 INDENT_VALUES = [("i", 0), ("i", 1), ("i", 2), ("i", 3), ("i", 4), ("i", 7), ("i", -1), ("i", -5), ("s", ""), ("s", "\t"), ("s", "xy"),
                  ("s", "  "), ("N",), ("b", True), ("b", False), ("f", 2.5), ("l",)]
-CLASSES = ["F", "Fh", "Fx", "H", "X"]   # Formatter(), Formatter(HTML), Formatter(XML), HTMLFormatter, XMLFormatter
+STOCK = ["F", "Fh", "Fx", "H", "X"]   # Formatter(), Formatter(HTML), Formatter(XML), HTMLFormatter, XMLFormatter
+# user subclasses declaring their own class-level HTML_DEFAULTS (documented, public): <stock form>@<names> ; a trailing ^ = one more
+# (empty) subclass level below the declaring one
+SUBCLASSES = ["H@p;b", "H@", "Fh@style;pre", "F@div", "Fx@p", "X@p;b", "H@script;p^", "F@b^"]
+CLASSES = STOCK + SUBCLASSES
+
+
+def cls_base(code):
+    return code.split("@")[0]
+
+
+def cls_html_defaults(code):
+    """the class's HTML_DEFAULTS['cdata_containing_tags'] as the property reads it"""
+    if "@" not in code:
+        return PROP_HTML_CDATA
+    return tuple(sorted(x for x in code.split("@")[1].rstrip("^").split(";") if x))
+
+
+_CLS = {}
+
+
+def cls_object(code):
+    """-> (class object, leading positional arguments)"""
+    fm = E()["fm"]
+    base = cls_base(code)
+    stock = {"F": fm.Formatter, "Fh": fm.Formatter, "Fx": fm.Formatter, "H": fm.HTMLFormatter, "X": fm.XMLFormatter}[base]
+    lead = {"F": [None], "Fh": [fm.Formatter.HTML], "Fx": [fm.Formatter.XML], "H": [], "X": []}[base]
+    if "@" not in code:
+        return stock, lead
+    if code not in _CLS:
+        c = type("Sub_" + str(len(_CLS)), (stock,), {"HTML_DEFAULTS": dict(cdata_containing_tags=set(cls_html_defaults(code)))})
+        if code.endswith("^"):
+            c = type("SubSub_" + str(len(_CLS)), (c,), {})
+        _CLS[code] = c
+    return _CLS[code], lead
 
 
 def indent_value(iv):
@@ -203,27 +237,18 @@ def build_formatter(spec):
         kw["empty_attributes_are_booleans"] = o["eab"]
     if "indent" in o:
         kw["indent"] = indent_value(tuple(o["indent"]))
-    cls = spec["cls"]
+    klass, lead = cls_object(spec["cls"])
     if spec.get("positional"):
         # every parameter positionally, in signature order, with the signature's defaults for those not in the spec
         order = ["entity_substitution", "void_element_close_prefix", "cdata_containing_tags", "empty_attributes_are_booleans", "indent"]
         dflt = {"entity_substitution": None, "void_element_close_prefix": "/", "cdata_containing_tags": None,
                 "empty_attributes_are_booleans": False, "indent": 1}
-        args = [kw.get(k, dflt[k]) for k in order]
-        if cls == "F":
-            return fm.Formatter(None, *args)
-        if cls == "Fh":
-            return fm.Formatter(fm.Formatter.HTML, *args)
-        if cls == "Fx":
-            return fm.Formatter(fm.Formatter.XML, *args)
-        return (fm.HTMLFormatter if cls == "H" else fm.XMLFormatter)(*args)
-    if cls == "F":
-        return fm.Formatter(**kw)
-    if cls == "Fh":
-        return fm.Formatter(language=fm.Formatter.HTML, **kw)
-    if cls == "Fx":
-        return fm.Formatter(fm.Formatter.XML, **kw)
-    return (fm.HTMLFormatter if cls == "H" else fm.XMLFormatter)(**kw)
+        return klass(*lead, *[kw.get(k, dflt[k]) for k in order])
+    if cls_base(spec["cls"]) == "F":
+        return klass(**kw)
+    if cls_base(spec["cls"]) == "Fh":
+        return klass(language=lead[0], **kw)
+    return klass(*lead, **kw)
 
 
 def prop_indent(iv):
@@ -246,10 +271,10 @@ def prop_indent(iv):
 def intended(spec):
     """the options the caller asked for, as the property understands them -> dict(es, vecp, cdata(tuple), eab, indent(str), xml_lang)"""
     o = spec["opts"]
-    xml = spec["cls"] in ("Fx", "X")
+    xml = cls_base(spec["cls"]) in ("Fx", "X")
     cd = o.get("cdata")
     return {"es": o.get("es"), "vecp": o.get("vecp", "/"),
-            "cdata": tuple(sorted(cd)) if cd is not None else (() if xml else PROP_HTML_CDATA),
+            "cdata": tuple(sorted(cd)) if cd is not None else (() if xml else cls_html_defaults(spec["cls"])),
             "eab": bool(o.get("eab", False)), "indent": prop_indent(tuple(o.get("indent", ("d",)))), "lang": "x" if xml else "h"}
 
 
@@ -286,8 +311,12 @@ def cfg_tok(a):
 
 def ctor_fmt_tok(spec, old=False):
     o = spec["opts"]
-    cls = {"F": "F", "Fh": "F", "Fx": "F", "H": "HO" if old else "H", "X": "XO" if old else "X"}[spec["cls"]]
-    lang = {"F": "N", "Fh": "h", "Fx": "x", "H": "N", "X": "N"}[spec["cls"]]
+    base = cls_base(spec["cls"])
+    cls = {"F": "F", "Fh": "F", "Fx": "F", "H": "HO" if old else "H", "X": "XO" if old else "X"}[base]
+    if "@" in spec["cls"]:
+        hd = cls_html_defaults(spec["cls"])
+        cls += "@" + (";".join(ptok(x) for x in hd) if hd else "E")
+    lang = {"F": "N", "Fh": "h", "Fx": "x", "H": "N", "X": "N"}[base]
     cd = o.get("cdata")
     return "/".join(["k", cls, lang, es_tok(o.get("es")), "N" if o.get("vecp", "/") is None else ptok(o.get("vecp", "/")),
                      "N" if cd is None else (";".join(ptok(x) for x in sorted(cd)) if cd else "E"),
@@ -1055,7 +1084,7 @@ def stream_call_log(ctx, ntrees):
         recipe = gen_recipe(r, i)
         soup = build_tree(recipe)
         xml = bool(soup.is_xml)
-        cd = r.choice(CDATA_VALUES)
+        cd = r.choice(CDATA_VALUES + [None, None])
         eab = r.choice(EAB_VALUES)
         cls = r.choice(CLASSES)
         how = r.choice(["obj", "obj", "fn"])
@@ -1072,8 +1101,8 @@ def stream_call_log(ctx, ntrees):
             spec = {"cls": cls, "opts": {"es": "c2", "cdata": cd, "eab": eab}}
             kw = dict(entity_substitution=spy, cdata_containing_tags=None if cd is None else set(cd), empty_attributes_are_booleans=eab)
             fm = e["fm"]
-            farg = {"F": lambda: fm.Formatter(**kw), "Fh": lambda: fm.Formatter(fm.Formatter.HTML, **kw),
-                    "Fx": lambda: fm.Formatter(fm.Formatter.XML, **kw), "H": lambda: fm.HTMLFormatter(**kw), "X": lambda: fm.XMLFormatter(**kw)}[cls]()
+            klass, lead = cls_object(cls)
+            farg = klass(*lead, **kw) if cls_base(cls) != "F" else klass(**kw)
             opts = intended(spec)
             mfs = {"how": "obj", "spec": spec}
         tags = [p for n, p in all_nodes(soup) if is_tag(n)]
